@@ -58,6 +58,10 @@ func (h bufH) put(ctxid int, ctx context.Context, vals ...int) bool {
 	}
 	vrt.Log("c:Put", args...)
 	err := h.b.Put(ctx, anyVals...)
+	// the caller owns its argument slice again once Put has returned: reuse it
+	for i := range anyVals {
+		anyVals[i] = -777
+	}
 	vrt.Log("r:Put", id, errStr(err))
 	return err == nil
 }
@@ -583,6 +587,12 @@ func bRange() {
 	c := h.newC()
 	variant := vrt.Choose(5, 0)
 	vrt.Log("variant", variant)
+	pre := vrt.Choose(2, 0) // 1: the consumer already holds an uncommitted read of value 0 when Range starts
+	if pre == 1 {
+		h.b.Put(nil, 0)
+		v, _ := c.c.Get(nil)
+		vrt.Log("pre-read", tok(v))
+	}
 	var wg sync.WaitGroup
 	wg.Add(2)
 	go func() {
